@@ -1,7 +1,7 @@
 (* Proofs/NpzP.v — lemmas for property C14 (copying and persistence) about Model/Npz.v instantiated with
    the tables of Gen/S_npz.v.  The statements used at property level are restated in Props/C14.v. *)
 From Coq Require Import ZArith List Bool String Lia.
-From Verif Require Import Py Shape COO S_npz Npz.
+From Verif Require Import Py Shape COO S_npz Npz Crc32 Crc32P.
 Import ListNotations.
 Open Scope Z_scope.
 
@@ -657,3 +657,21 @@ Lemma numba_construct_refuted_proof :
     forallb (fun d => 0 <=? d) (c_shape c) = true /\ canonicalb c = true /\ c_fill c = 0 /\
     nb_construct Z 0 (64, true) c = Raise TypeError.
 Proof. exists (mkCOO [] [[]] [7] 0). repeat split. Qed.
+
+(* ---------------------------------------------------------------------- the CRC part of the container oracle, proved.
+   With [ok] of [Archive ok view] instantiated by what testzip computes (it recomputes the CRC-32 of every member's
+   payload, Model/Crc32.v), a single altered payload byte in any member of an archive written with correct CRCs makes
+   load_npz raise, whatever the member reads would have returned. *)
+Lemma npz_payload_corruption_rejected_proof (V : Type) (a : zarchive) (k i : nat) (b : Z) (m : zmember)
+      (view : members V) :
+  written_ok a -> nth_error a k = Some m -> (i < List.length (zm_payload m))%nat ->
+  byte_ok b -> b <> nth i (zm_payload m) 0 ->
+  exists e, load_file V (Archive (testzip_passes (corrupt a k i b)) view) = Raise e.
+Proof.
+  intros Hw Hk Hi Hb Hne. rewrite (testzip_detects_corruption_proof a k i b m Hw Hk Hi Hb Hne).
+  cbn. eexists. reflexivity.
+Qed.
+
+Lemma npz_intact_archive_loads_proof (V : Type) (a : zarchive) (view : members V) :
+  written_ok a -> load_file V (Archive (testzip_passes a) view) = load_members V view.
+Proof. intros Hw. now rewrite (testzip_passes_written a Hw). Qed.
